@@ -693,3 +693,13 @@ def _condensed_scores(interp, args, kwargs, node):
     ctx.assume(z3.ForAll([i, j], z3.Implies(z3.And(0 <= i, i < j, j < n),
                                             g(n * i + j - ((i + 2) * (i + 1)) / 2) == to_real(interp.call(f, [at(i), at(j)], {}, node)))))
     return interp.born(VList(SymSeq((n * (n - 1)) / 2, lambda k: VReal(g(k), True), vec.T_RealT(np=True)), "ndarray"))
+
+
+@S.spec("chain_weights")
+def _chain_weights(interp, args, kwargs, node):
+    return VObj("ChainWeights", attrs={"__repo_instance__": True, "alpha_weight": args[0], "beta_weight": args[1]})
+
+
+@S.spec("cdr_weights")
+def _cdr_weights(interp, args, kwargs, node):
+    return VObj("CdrWeights", attrs={"__repo_instance__": True, "cdr1_weight": args[0], "cdr2_weight": args[1], "cdr3_weight": args[2]})
